@@ -1,6 +1,7 @@
 package main
 
 import (
+	"bytes"
 	"encoding/json"
 	"fmt"
 	"sync"
@@ -70,11 +71,12 @@ type op struct {
 
 // recSpec describes the record object the client hands to Put/PutNew/PutMany.
 type recSpec struct {
-	Key   string  `json:"key"`
-	Form  string  `json:"form"` // struct | json | opaque
-	C     content `json:"c"`
-	Meta  string  `json:"meta"` // fresh (no meta yet) | keep (the meta the client last stored under this key)
-	Edits []medit `json:"edits,omitempty"`
+	Key    string  `json:"key"`
+	NilPtr bool    `json:"nil_ptr,omitempty"` // estruct: the embedded pointer is nil (its fields F, B are absent)
+	Form   string  `json:"form"`              // struct | estruct (fields promoted from embedded structs) | json | opaque
+	C      content `json:"c"`
+	Meta   string  `json:"meta"` // fresh (no meta yet) | keep (the meta the client last stored under this key)
+	Edits  []medit `json:"edits,omitempty"`
 }
 
 // medit is a client-side change of the record's metadata before the write.
@@ -111,6 +113,63 @@ type TestRec struct {
 	N int32
 	F float64
 	B bool
+}
+
+// TestRecE is a typed record whose queried fields all come from embedded structs, the
+// way encoding/json and reflect's FieldByName both promote them:
+//
+//	I  two levels deep (EIn1.EIn2.I)      S  one level deep (EIn1.S)
+//	F, B  through an embedded pointer     N  from an embedded struct whose T is shadowed
+//	T  declared directly, shadowing EShadow.T (which holds a decoy value)
+type TestRecE struct {
+	record.Base
+	sync.Mutex
+
+	EIn1
+	*EPtr
+	EShadow
+	T string
+}
+
+// EIn2 is embedded in EIn1.
+type EIn2 struct{ I int64 }
+
+// EIn1 is embedded in TestRecE.
+type EIn1 struct {
+	EIn2
+	S string
+}
+
+// EPtr is embedded in TestRecE by pointer.
+type EPtr struct {
+	F float64
+	B bool
+}
+
+// EShadow is embedded in TestRecE; its T is hidden by TestRecE.T.
+type EShadow struct {
+	T string
+	N int32
+}
+
+// jsonView is the model's view of a typed record: its serialized (JSON) form, read
+// back into the field set. Fields that JSON does not show (nil embedded pointer,
+// shadowed names) are not part of the record.
+func jsonView(v any) (content, error) {
+	var c content
+	b, err := json.Marshal(v)
+	if err != nil {
+		return c, err
+	}
+	return jsonViewOf(b)
+}
+
+func jsonViewOf(data []byte) (content, error) {
+	var c content
+	dec := json.NewDecoder(bytes.NewReader(data))
+	dec.DisallowUnknownFields()
+	err := dec.Decode(&c)
+	return c, err
 }
 
 func (t *TestRec) content() content {
